@@ -293,20 +293,89 @@ theorem mget_mem (m : NMap) (k o : Nat) (s : Int) (h : mget m k = some (o, s)) :
 
 /-- `readNeedle` when the map has a live entry and the record decodes -/
 theorem readNeedle_of_get (crc : Bytes → UInt32) (v : Vol) (k off : Nat) (size : Int) (d : Decoded)
-    (hp : v.panicked = false) (hg : mget v.map k = some (off, size)) (ho : off ≠ 0) (hs : size > 0)
+    (hp : v.panicked = false) (hf : v.failed = false) (hg : mget v.map k = some (off, size)) (ho : off ≠ 0) (hs : size > 0)
     (hr : readData crc 3 v.dat.bytes (off * 8) size = .ok d) : readNeedle crc v k = .data d.body.data := by
   unfold readNeedle
   have e2 : ¬ (size < 0) := by omega
   have e3 : ¬ (size = 0) := by omega
-  simp only [hp, Bool.false_eq_true, if_false, hg, ho, e2, e3, hr]
+  simp only [hp, hf, Bool.false_eq_true, or_self, if_false, hg, ho, e2, e3, hr]
 
 /-- `writeNeedle` of a fresh id on a writable volume -/
 theorem writeNeedle_fresh (crc : Bytes → UInt32) (v : Vol) (x : Needle)
-    (hp : v.panicked = false) (hro : v.readOnly = false) (hfresh : mget v.map x.id = none) :
+    (hp : v.panicked = false) (hf : v.failed = false) (hro : v.readOnly = false) (hfresh : mget v.map x.id = none) :
     writeNeedle crc v x =
       ({ v with dat := appendRec v.dat (encode 3 x), map := mset v.map x.id (v.dat.size / 8) (recSize x),
                 idx := v.idx ++ entryBytes ⟨x.id, v.dat.size / 8, recSize x⟩ }, .ok) := by
   unfold writeNeedle
-  simp only [hp, hro, hfresh, Bool.false_eq_true, if_false, Bool.not_true, if_true]
+  simp only [hp, hf, hro, hfresh, Bool.false_eq_true, or_self, if_false, Bool.not_true, if_true]
+
+/-! ### the batched index walker visits every entry, for every entry count -/
+
+theorem idxEntries_split (a b : Bytes) (ha : a.length % 16 = 0) : idxEntries (a ++ b) = idxEntries a ++ idxEntries b := by
+  unfold idxEntries
+  have hk : (a ++ b).length / 16 = a.length / 16 + b.length / 16 := by rw [List.length_append]; omega
+  rw [hk, List.range_add, List.map_append, List.map_map]
+  congr 1
+  · apply List.map_congr_left
+    intro i hi
+    rw [List.mem_range] at hi
+    rw [List.drop_append_of_le_length (by omega), List.take_append_of_le_length (by rw [List.length_drop]; omega)]
+  · apply List.map_congr_left
+    intro i _
+    simp only [Function.comp]
+    have h1 : 16 * (a.length / 16 + i) = a.length + 16 * i := by omega
+    rw [h1, ← List.drop_drop, List.drop_left]
+
+theorem walkFrom_all (rows : Nat) (hr : 0 < rows) (f : Bytes) :
+    ∀ (fuel start : Nat) (acc : List Entry), f.length - start < fuel →
+      walkFrom rows f fuel (start + ((f.drop start).take (16 * rows)).length) ((f.drop start).take (16 * rows))
+        (decide (((f.drop start).take (16 * rows)).length < 16 * rows)) acc = (acc ++ idxEntries (f.drop start), false) := by
+  intro fuel
+  induction fuel with
+  | zero => intro start acc h; omega
+  | succ fuel ih =>
+    intro start acc hfuel
+    unfold walkFrom
+    by_cases heof : ((f.drop start).take (16 * rows)).length < 16 * rows
+    · -- last (short) read: it carries io.EOF, the loop body returns nil
+      have hall : (f.drop start).take (16 * rows) = f.drop start := by
+        apply List.take_of_length_le
+        rw [List.length_take] at heof; omega
+      rw [hall] at heof
+      simp only [hall, heof, decide_true, or_true, if_true]
+    · -- a full batch: more may follow (possibly nothing: then the next read returns 0 bytes and io.EOF)
+      have hlen : ((f.drop start).take (16 * rows)).length = 16 * rows := by
+        have := List.length_take_le (16 * rows) (f.drop start); omega
+      have hpos : ((f.drop start).take (16 * rows)).length > 0 := by omega
+      simp only [heof, decide_false, hpos, and_self, Bool.false_eq_true, or_false, if_true, if_false, readAt]
+      have hle : start + 16 * rows ≤ f.length := by
+        rw [List.length_take, List.length_drop] at hlen; omega
+      have hnext := ih (start + 16 * rows) (acc ++ idxEntries ((f.drop start).take (16 * rows))) (by omega)
+      rw [hlen]
+      have hsplit : idxEntries (f.drop start) =
+          idxEntries ((f.drop start).take (16 * rows)) ++ idxEntries (f.drop (start + 16 * rows)) := by
+        have h1 : f.drop start = (f.drop start).take (16 * rows) ++ f.drop (start + 16 * rows) := by
+          rw [← List.drop_drop, List.take_append_drop]
+        rw [h1, idxEntries_split _ _ (by rw [hlen]; omega), ← h1]
+      rw [hsplit, ← List.append_assoc]
+      exact hnext
+
+/-- `WalkIndexFile` visits exactly the complete entries of the index and returns no error — for EVERY file length
+    and every positive batch size, in particular when the file is an exact multiple of the batch -/
+theorem walkIndex_all (rows : Nat) (hr : 0 < rows) (f : Bytes) : walkIndex rows f = (idxEntries f, false) := by
+  unfold walkIndex readAt
+  simp only [List.drop_zero]
+  by_cases h0 : (f.take (16 * rows)).length = 0 ∧ decide ((f.take (16 * rows)).length < 16 * rows) = true
+  · have hf : f = [] := by
+      have := h0.1
+      rw [List.length_take] at this
+      have : f.length = 0 := by omega
+      exact List.eq_nil_of_length_eq_zero this
+    rw [if_pos h0, hf]
+    rfl
+  · rw [if_neg h0]
+    have := walkFrom_all rows hr f (f.length + 2) 0 [] (by omega)
+    simp only [List.drop_zero, Nat.zero_add, List.nil_append] at this
+    exact this
 
 end SwV.Lemmas.C03
